@@ -36,12 +36,26 @@ OUT_HPP = os.path.join(VERIF, "harness", "alloc_sites_gen.hpp")
 OUT_JSON = os.path.join(VERIF, ".cache", "alloc_sites.json")
 COVER = os.path.join(VERIF, "lean", "Amgcl", "Model", "AllocCover.lean")
 
-# backends whose containers live on a device / in a third-party library: their allocations are not `operator new`
-OUT_OF_SCOPE = [
-    "amgcl/backend/cuda.hpp", "amgcl/backend/vexcl.hpp", "amgcl/backend/vexcl_static_matrix.hpp",
-    "amgcl/backend/viennacl.hpp", "amgcl/backend/hpx.hpp", "amgcl/backend/blaze.hpp", "amgcl/backend/mkl.hpp",
-    "amgcl/relaxation/cusparse_ilu0.hpp",
-]
+# files outside the scope of the table, with the reason (listed in the generated file and in the evidence)
+GPU = "device / third-party-container backend: its allocations are not `operator new`"
+EXT = "wrapper of an external partitioning library that is not installed here: can be neither compiled nor run"
+NOH = ("distributed composite preconditioner that no harness of the framework instantiates (outside the 20 properties); "
+       "the serial counterpart under amgcl/preconditioner/ is in scope")
+OUT_OF_SCOPE = {
+    "amgcl/backend/cuda.hpp": GPU, "amgcl/backend/vexcl.hpp": GPU, "amgcl/backend/vexcl_static_matrix.hpp": GPU,
+    "amgcl/backend/viennacl.hpp": GPU, "amgcl/backend/hpx.hpp": GPU, "amgcl/backend/blaze.hpp": GPU,
+    "amgcl/backend/mkl.hpp": GPU, "amgcl/relaxation/cusparse_ilu0.hpp": GPU,
+    "amgcl/mpi/partition/parmetis.hpp": EXT, "amgcl/mpi/partition/ptscotch.hpp": EXT,
+    "amgcl/mpi/cpr.hpp": NOH, "amgcl/mpi/schur_pressure_correction.hpp": NOH, "amgcl/mpi/subdomain_deflation.hpp": NOH,
+}
+# single sites excluded, with the reason: branches of in-scope files that no harness of the framework reaches
+BR = "branch of the distributed PMIS coarsening (%s) that no harness of the framework instantiates"
+EXCLUDED_SITES = {
+    "amgcl/mpi/coarsening/pmis.hpp|pmis::tentative_prolongation|P_loc.col+val": BR % "near-null-space vectors",
+    "amgcl/mpi/coarsening/pmis.hpp|pmis::tentative_prolongation|P_rem.col+val": BR % "near-null-space vectors",
+    "amgcl/mpi/coarsening/pmis.hpp|pmis::expand_conn|C.val": BR % "block_size > 1",
+    "amgcl/mpi/coarsening/pmis.hpp|pmis::expand_conn|C.col": BR % "block_size > 1",
+}
 
 # callees that take a trailing literal `false` and are NOT allocations (a trailing `false` on anything else that is not
 # recognised as one of the allocation forms above is reported as unparsed)
@@ -495,6 +509,10 @@ def main():
         base = re.sub(r"\s+", "", base)
         seen[base] = seen.get(base, 0) + 1
         x["key"] = base if seen[base] == 1 else "%s#%d" % (base, seen[base])
+    excluded = [dict(x, reason=EXCLUDED_SITES[x["key"]]) for x in sites if x["key"] in EXCLUDED_SITES]
+    for k in EXCLUDED_SITES:
+        if k not in set(x["key"] for x in sites): notes.append("excluded site %s does not exist (any more)" % k)
+    sites = [x for x in sites if x["key"] not in EXCLUDED_SITES]
 
     thms = cover_theorems()
     L = ["-- GENERATED by tools/alloc_sites.py from $AMGCL_REPO/amgcl/**/*.hpp — do not edit; regenerated on every run",
@@ -503,7 +521,9 @@ def main():
          "import Amgcl.Properties.C10b",
          "/-! Every heap allocation of the (non-GPU) library sources whose cells are left unwritten by the allocating",
          "expression, and the obligation that each one is accounted for in `Amgcl.AllocCover.coveredKeys` (by a definedness",
-         "theorem or by a poisoned-heap differential run).  Out of scope (device / third-party containers): " + ", ".join(skipped) + " -/",
+         "theorem or by a poisoned-heap differential run).",
+         "Out of scope (with reasons in tools/alloc_sites.py and in the evidence): " + ", ".join(skipped),
+         "Excluded single sites (branches no harness reaches): " + ", ".join(x["key"] for x in excluded) + " -/",
          "namespace Amgcl.Generated.AllocSites", "open Amgcl.AllocCover", "",
          "def sites : List Site := ["]
     rows = []
@@ -531,7 +551,8 @@ def main():
     txt = "\n".join(L)
     os.makedirs(os.path.dirname(OUT_JSON), exist_ok=True)
     json.dump({"repo": REPO, "sites": sites, "out_of_scope": skipped, "problems": problems, "notes": notes, "capacity_only": capacity,
-               "not_in_cover_map": uncovered, "stale_cover_entries": [k for k in ck if k not in set(x["key"] for x in sites)]},
+               "not_in_cover_map": uncovered, "excluded_sites": excluded,
+               "out_of_scope_reasons": {f: OUT_OF_SCOPE[f] for f in skipped}, "stale_cover_entries": [k for k in ck if k not in set(x["key"] for x in sites)]},
               open(OUT_JSON, "w"), indent=1)
 
     if not os.path.exists(OUT_LEAN) or open(OUT_LEAN).read() != txt: open(OUT_LEAN, "w").write(txt)
